@@ -42,4 +42,16 @@ PROPS["C16"] = {
     "assumptions": ["reference = the documented/used meaning of each predicate evaluated in exact 64-bit integer arithmetic (harness/c16_geometry.cpp); pointOnLine/inBetween mean the OPEN segment (every caller adds the endpoints itself)", "random coordinates up to 2^20 (sampling) are replaced by exhaustive grids under scalings up to 2^20"],
     "parts": [{"name": "geometry", "src": "c16_geometry.cpp", "quick": T(100, 60, [], 1000), "thorough": T(1200, 120, [], 1000)}],
 }
+PROPS["C17"] = {
+    "rule": "every multigraph on n nodes with <=m edges over {(u,v): u<=v} x weight in {0,0.5,1,2} (self-loops, parallel edges, zero weights, disconnected) through dijkstra, johnsons, floyd_warshall (given weights and default unit weights); ConstrainedFDLayout::readLinearD/G for edge lengths in {-1,0,0.5,2} x idealLength in {1,30}. Non-trivial = graph has a self-loop, parallel edges, a non-positive length or is disconnected.",
+    "bounds": {"quick": "n<=3 m<=4, n=4 m<=3; layout n<=3 m<=3", "thorough": "n=4 m<=4, n=5 m<=3(4 with 2 weights); layout n=4 m<=3, n=3 m<=4"},
+    "assumptions": ["oracle: Bellman-Ford relaxation written in the harness", "sizes in the hundreds are outside the bound"],
+    "parts": [{"name": "paths", "src": "c17_paths.cpp", "quick": T(100, 20, [], 1000), "thorough": T(1200, 20, [], 1000)}],
+}
+PROPS["C09"] = {
+    "rule": "every multiset of n rectangles with corners on grid 0..G (x10): identical, nested, chain-overlapping, grid-tied, 1-cell-thin; x every fixed subset whose members are pairwise non-overlapping x thirdPass off/on x initial border 0/2 through removeoverlaps; the same inputs through generateXConstraints (with and without neighbour lists) and generateYConstraints. Oracle is evaluated on the rectangles left behind even when an assertion throws. Non-trivial = some pair overlaps initially.",
+    "bounds": {"quick": "(n,G) in (1,3),(2,3),(3,2),(3,3),(4,2),(5,2)", "thorough": "+ (2,4),(3,4),(4,3),(6,2)"},
+    "assumptions": ["generated constraints are judged exactly: acyclic and every pair overlapping in the other axis joined by a directed path of summed gap >= half-extent sum", "fixed rectangles must stay within 1% of the mean size unless some pass is infeasible with the fixed rectangles pinned (class fixed_wedge, known finding)", "sizes in the hundreds are outside the bound"],
+    "parts": [{"name": "overlaps", "src": "c09_overlaps.cpp", "quick": T(100, 20, [], 1000), "thorough": T(1200, 20, [], 1000)}],
+}
 NOT_APPLICABLE = {}
